@@ -1,4 +1,5 @@
 """C07 — no bytes from the network can crash the decoder layer: site census with proof-or-table (K7)."""
+import re
 import json
 import os
 from engine import core, mir, lenana
@@ -268,16 +269,39 @@ def _same(site, rel):
     return any(site.bi == r.bi and site.kind == r.kind for r in rel)
 
 
+_CLOSURE = re.compile(r"\{closure#(\d+)\}")
+
+
+def norm_fn(fn):
+    """key form of a body name: the numbering of NESTED closures is positional (a closure added earlier in the function
+    renumbers the later ones), so it is dropped - `f::{closure#0}::{closure#4}` and `g::{closure#2}` become
+    `f::{closure#0}::{closure}` and `g::{closure}`. The `{closure#0}` that is the body of an async fn stays."""
+    parts = fn.split("::")
+    out = []
+    for i, p in enumerate(parts):
+        if _CLOSURE.fullmatch(p):
+            first = not any(_CLOSURE.fullmatch(q) or q == "{closure}" for q in out)
+            out.append(p if (first and p == "{closure#0}" and i + 1 < len(parts) and _CLOSURE.fullmatch(parts[i + 1])) else "{closure}")
+        else:
+            out.append(p)
+    return "::".join(out)
+
+
+def _fn_order(fn):
+    return [(_CLOSURE.sub("", p), int(_CLOSURE.fullmatch(p).group(1)) if _CLOSURE.fullmatch(p) else -1) for p in fn.split("::")]
+
+
 def site_keys(sites_by_fn):
-    """stable keys: function | kind | normalised source text | ordinal among equals"""
+    """stable keys: function (nested closure numbers dropped) | kind | normalised source text | ordinal among equals"""
     keyed = []
-    for fn in sorted(sites_by_fn):
-        cnt = {}
+    cnt = {}
+    for fn in sorted(sites_by_fn, key=_fn_order):
+        nf = norm_fn(fn)
         for s in sites_by_fn[fn]:
-            base = (s.kind, " ".join((s.src or "").split())[:80])
+            base = (nf, s.kind, " ".join((s.src or "").split())[:80])
             o = cnt.get(base, 0)
             cnt[base] = o + 1
-            keyed.append(("%s|%s|%s|%d" % (fn, base[0], base[1], o), s))
+            keyed.append(("%s|%s|%s|%d" % (nf, base[1], base[2], o), s))
     return keyed
 
 
